@@ -148,6 +148,15 @@ def gen_plan(run_seed, tier="quick", profile="default", focus=None,
         if seed is not None:
           triples.append((name, n, seed))
       ops.append({"op": "rng", "name": name, "n": n, "seed": seed})
+      if seed is not None and r.random() < 0.12:
+        # directly afterwards: the same generator and seed, another length
+        # (anything remembered from the previous call must not leak)
+        n2 = r.choice([max(1, n - r.randint(1, 70)), n + r.randint(1, 70),
+                       max(1, n // 2), _pick_n(r)])
+        if name == "lcgnist" and n2 > 4096:
+          n2 = 1 + n2 % 4096
+        ops.append({"op": "rng", "name": name, "n": n2, "seed": seed})
+        triples.append((name, n2, seed))
       if seed is not None and r.random() < 0.15:
         # the same request to a freshly constructed instance of the generator
         ops.append({"op": "rng", "name": name, "n": n, "seed": seed,
